@@ -123,8 +123,56 @@ def run_config(case, out):
     convgen.ctx()  # back to the shared world
 
 
+def run_user_names(case, out):
+    """An application registers additional *names* for units -- here, adversarially, the very
+    texts that str() produces for prefixed units of other units ("kt" for the knot, which is also
+    str(Kilo * Tonne)).  Names are looked up after symbols and prefixed symbols, so every
+    rendering must still parse back to the unit it was made from."""
+    try:
+        stride, offset = int(case["stride"]), int(case["offset"])
+        if not (7 <= stride <= 1000 and 0 <= offset < stride):
+            raise ValueError
+    except Exception:
+        out.invalid = True
+        return
+    c = config_ctx(CONFIG_MODS)
+    m = c.m
+    units = sorted(c.all_units)
+    pairs = [(pn, u) for pn in c.prefixes for u in units]
+    made = []
+    for idx in range(offset, len(pairs), stride):
+        pn, u = pairs[idx]
+        x = c.snap.prefixes[pn] * c.all_units[u]
+        try:
+            text = str(x)
+        except Exception:  # noqa -- rendering failures are the single-term cases' business
+            continue
+        host = c.all_units[units[(idx * 13 + 5) % len(units)]]
+        if text in m.Unit._by_symbol or text in m.Unit._by_name or not text.strip() or host is c.all_units[u]:
+            continue
+        if predict(c, text) is None or predict(c, text)[1] is not c.all_units[u]:
+            continue  # a rendering that already collides (K-COLLISION) or folds a magnitude
+        try:
+            host.alias(name=text)
+        except ValueError:
+            continue
+        made.append((pn, u, x, text, host))
+    c.uname = dict(m.Unit._by_name)
+    for pn, u, x, text, host in made:
+        if m.Unit._by_name.get(text) is not host:
+            out.fail("C13:user-name:not-bound", f"{host!r}.alias(name={text!r}) returned, but the name is bound to {m.Unit._by_name.get(text)!r}")
+        _check_roundtrip(c, out, x, [[pn, u, 1]], [3])
+    out.classes.append("user-names:checked")
+    if len(made) >= 2:
+        out.nontrivial = f"user-names|{stride}|{offset}"
+        out.sample = {"user_registered_names_equal_to_renderings": len(made), "first": [made[0][3], str(made[0][4])]}
+    convgen.ctx()  # back to the shared world
+
+
 def enumerate_cases(tier):
     out = []
+    for offset in ((0, 3) if tier == "quick" else range(0, 29, 2)):
+        out.append({"k": "user-names", "stride": 29, "offset": offset})
     # configurations: every shipped module on its own (with whatever it imports itself), and
     # in the thorough tier every pair of modules
     for mod in CONFIG_MODS:
@@ -140,6 +188,14 @@ def enumerate_cases(tier):
         for u in sorted(C.all_units):
             for e in (1, 2, 3, -1, -2, -3):
                 out.append({"k": "single", "terms": [[p, u, e]]})
+    # prefixes of both bases cancelling exactly, in every order of the four terms
+    import itertools
+
+    for p2, p10, k, j in (("kibi", "kilo", 1, 1), ("tebi", "hecto", 2, 3), ("mebi", "milli", 3, 1), ("kibi", "micro", 2, 2)):
+        if p2 in C.snap.prefixes and p10 in C.snap.prefixes:
+            ts = [[p2, "meter", k], [p10, "second", j], [p2, "gram", -k], [p10, "ampere", -j]]
+            for order in itertools.permutations(range(4)):
+                out.append({"k": "product", "terms": [ts[i] for i in order], "mag": 3})
     return out
 
 
@@ -156,9 +212,23 @@ def strategy(tier):
     NAMEF = st.sampled_from(["symbol", "symbol", "alias", "name"])
     MAGS = st.sampled_from([1, 3, 12, 1000, 2.5, 0.125, 1e-3, 7.0, -4, 0])
 
+    P2 = st.sampled_from([p_ for p_ in c.prefixes if c.snap.prefixes[p_].base == 2])
+    P10 = st.sampled_from([p_ for p_ in c.prefixes if c.snap.prefixes[p_].base == 10])
+
+    @st.composite
+    def cancelling(draw):
+        """prefixes of both bases that cancel exactly in the mathematics while the library's
+        base-changed float exponent keeps a residue of 1e-15 or so"""
+        k, j = draw(st.sampled_from([1, 2, 3])), draw(st.sampled_from([1, 2, 3]))
+        p2, p10 = draw(P2), draw(P10)
+        ts = [[p2, draw(U), k], [p10, draw(U), j], [p2, draw(U), -k], [p10, draw(U), -j]]
+        return {"k": "product", "terms": convgen.shuffle(draw, ts), "mag": draw(MAGS)}
+
     @st.composite
     def mix(draw):
         sel = draw(convgen.INT10)
+        if sel == 9:
+            return draw(cancelling())
         ts = draw(terms)
         if sel < 5:
             return {"k": "product", "terms": ts, "mag": draw(MAGS)}
@@ -254,7 +324,13 @@ def _check_roundtrip(c, out, x, terms, mags):
     label = convgen.terms_str(terms)
     branch = _expect_render(c, x)
     out.classes.append(f"render:{branch}")
-    s = str(x)
+    try:
+        s = str(x)
+        for mag in mags:
+            str(m.Quantity(mag, x))
+    except Exception as e:  # noqa
+        out.fail(f"C13:str-raises:{type(e).__name__}@{core.innermost_frame(e)}", f"str() of {label} (prefix {x.prefix!r}) raised {type(e).__name__}: {e}")
+        return
     pkey = collision_key(c, x, branch)
     if pkey is None:
         pkey = "unpredicted:" + "+".join(f"{p or 'none'}+{u}" for p, u, e in terms)
@@ -382,6 +458,11 @@ def run_case(case) -> core.Outcome:
     out = core.Outcome()
     c = convgen.ctx()
     m = c.m
+    if isinstance(case, dict) and case.get("k") == "user-names":
+        run_user_names(case, out)
+        if out.invalid:
+            out.failures = []
+        return out
     if isinstance(case, dict) and case.get("k") == "config":
         run_config(case, out)
         return out
@@ -408,8 +489,11 @@ def run_case(case) -> core.Outcome:
         mags = [v for v in mags if isinstance(v, (int, float)) and not isinstance(v, bool)]
         _check_roundtrip(c, out, x, terms, mags)
         if any(p for p, _, _ in terms) or any(abs(e) > 1 for _, _, e in terms) or len(terms) > 1:
-            out.nontrivial = f"{kind}|{x}"
-            out.sample = {"unit": convgen.terms_str(terms), "str": str(x)}
+            out.nontrivial = f"{kind}|{convgen.terms_str(terms)}"
+            try:
+                out.sample = {"unit": convgen.terms_str(terms), "str": str(x)}
+            except Exception:  # noqa -- reported by _check_roundtrip
+                out.sample = {"unit": convgen.terms_str(terms)}
         return out
     text = _spell(c, case)
     if text is None:
